@@ -559,7 +559,8 @@ class HierarchicalAsyncMachine(HierarchicalMachine, AsyncMachine):
         try:
             with self():
                 res = await self._trigger_event_nested(event_data, trigger, None)
-            event_data.result = self._check_event_result(res, event_data.model, trigger)
+                # still at the root scope (see HierarchicalMachine._trigger_event)
+                event_data.result = self._check_event_result(res, event_data.model, trigger)
         except BaseException as err:  # pylint: disable=broad-except; Exception will be handled elsewhere
             event_data.error = err
             if self.on_exception:
